@@ -99,6 +99,12 @@ CLAIMED = {
    text="Bounded model checking of the frame condition (which subsumes all orderings of queries): on one Network/InteractingNetworks object every measure Engine P can execute is called in two opposite orders; after each call the adjacency, the node weights, the cached path lengths and every array returned earlier are cell-wise equal to their snapshots and repeating a query returns an equal value; ClimateNetwork: constructor leaves the caller's similarity matrix intact and inv_correlation_distance leaves the memoised correlation_distance intact; similarity estimators leave the anomaly array they are handed intact; recurrence constructors (also with normalize=True) leave caller series intact. Surrogates purity is decided in C15.",
    note="Bounds: 3 concrete topologies (n<=4) with symbolic weights/link attributes (more in thorough), ClimateNetwork N=3, 3 x 2 anomalies, 3-sample series. Methods documented as in-place are exempt. Objects P cannot execute (netCDF, plotting, igraph-only) outside.",
    ref="DESIGN.md §3 C06"),
+ "C20": dict(
+   engine="K+C",
+   technique="bounded symbolic execution of the .pyx wrappers (Cython parse-tree interpreter) chained into a symbolic interpreter of src_numerics.c built from clang's JSON AST: pointers are (array, element offset, access type) and every load/store carries a byte-extent obligation decided by z3 (LIA/LRA) plus an IEEE-754 bit-precise lemma (QF_FP) for the float->bin index; sat models replayed on the compiled kernels with inputs ending at an unmapped guard page",
+   text="Bounded model checking of memory safety at source level: for each of the six raw-pointer C routines reached through its wrapper with the arrays exactly as the wrapper allocates them, every dimension in the bound (N != T combinations included), symbolic array contents under the value contract the Python caller establishes, no load or store lies outside the byte extent of the array it was derived from, no access uses an element width other than the array's, no integer division by zero and no negative allocation size; histogram bin indices stay in range for all IEEE doubles; typed-buffer kernels are covered by reading the bounds-checking directives (IndexError is an allowed rejection).",
+   note="Bounds: dimensions 1..3 (quick) / 1..4 (thorough), bins 1..2 (3). Source-level semantics of C99 with LP64 type sizes (long = 8 bytes; on LLP64 the long*/int64 pairing of _mutual_information is a width mismatch outside this claim). Stack exhaustion by alloca for huge tmax, the compiled artefact itself and surrogate arrays whose shape differs from the documented one are outside.",
+   ref="DESIGN.md §3 C20"),
 }
 NA_DEFAULT = "check not built yet in this round (see DESIGN.md §6 for the planned obligation)"
 def main():
